@@ -22,6 +22,10 @@ pub struct Program {
     pub ret_opts: u8,
     /// 0 none, 1 before the appends, 2 between, 3 after the appends
     pub fail: u8,
+    /// the content store stops accepting writes after the closure's last explicit `.append` and
+    /// before it returns (the write of the return value fails): the call fails as a whole
+    #[serde(default)]
+    pub cas_fault: bool,
 }
 
 pub fn programs(thorough: bool) -> Vec<Program> {
@@ -60,9 +64,14 @@ pub fn programs(thorough: bool) -> Vec<Program> {
                             continue;
                         }
                     }
-                    v.push(Program { appends: apps.clone(), ret, ret_opts: ro, fail });
+                    v.push(Program { appends: apps.clone(), ret, ret_opts: ro, fail, cas_fault: false });
                 }
             }
+        }
+    }
+    for apps in [vec![0u8], vec![0, 1], vec![2, 0]] {
+        for ret in [1u8, 6] {
+            v.push(Program { appends: apps.clone(), ret, ret_opts: 0, fail: 0, cas_fault: true });
         }
     }
     v
@@ -112,6 +121,9 @@ pub fn script(p: &Program, other_ctx: &str) -> String {
     if p.fail == 3 {
         body.push_str(fail);
     }
+    if p.cas_fault {
+        body.push_str("    \"x\" | save -f ($env.XSMC_MARK + \".1\")\n    loop { if (($env.XSMC_MARK + \".2\") | path exists) { break }; sleep 5ms }\n");
+    }
     body.push_str(&format!("    {}\n", ret_expr(p.ret).0));
     let ro = match p.ret_opts {
         0 => "".to_string(),
@@ -133,7 +145,8 @@ pub fn run_program(p: &Program) -> (Vec<F>, String) {
     let w = World::start(Serve { handlers: true, ..Default::default() });
     let ctx = w.ctx_a;
     let other = w.ctx_b;
-    let src = script(p, &other.to_string());
+    let mark = w.dir.join("mark").to_string_lossy().to_string();
+    let src = if p.cas_fault { format!("$env.XSMC_MARK = \"{}\"\n{}", mark, script(p, &other.to_string())) } else { script(p, &other.to_string()) };
     let reg = w.append_c("h.register", ctx, Some(&src), None);
     let mut outcome = String::new();
     let registered = w.wait(|f| (f.topic == "h.registered" || f.topic == "h.unregistered") && meta_str(f, "handler_id") == Some(reg.id.to_string()), 30.0);
@@ -146,6 +159,22 @@ pub fn run_program(p: &Program) -> (Vec<F>, String) {
         }
     }
     let trigger = w.append_c("trigger", ctx, None, Some(json!({"t": 1})));
+    if p.cas_fault {
+        // the closure has done its explicit appends and waits: now the content store breaks
+        let t0 = std::time::Instant::now();
+        while !std::path::Path::new(&format!("{}.1", mark)).exists() {
+            if t0.elapsed() > std::time::Duration::from_secs(20) {
+                fs.push(F { kind: "c15.harness".into(), msg: format!("the closure never reached its marker :: {}", src) });
+                w.stop();
+                return (fs, "nomark".into());
+            }
+            std::thread::sleep(std::time::Duration::from_millis(2));
+        }
+        let tmp = w.dir.join("cacache").join("tmp");
+        let _ = std::fs::remove_dir_all(&tmp);
+        std::fs::write(&tmp, b"not a directory").expect("harness: cannot break the content store");
+        std::fs::write(format!("{}.2", mark), b"go").unwrap();
+    }
     let flush = w.append_c("flush", ctx, None, None);
     let (suffix, want_ttl): (&str, Option<TTL>) = match p.ret_opts {
         0 => (".out", None),
@@ -176,7 +205,12 @@ pub fn run_program(p: &Program) -> (Vec<F>, String) {
     let label = format!("{:?}", p);
     let refused = |a: &u8| *a == 5 || *a == 7;
     let may_fail = p.appends.iter().any(refused);
-    if p.fail != 0 || p.appends.contains(&4) || (may_fail && term.topic == "h.unregistered") {
+    if p.cas_fault && term.topic != "h.unregistered" {
+        // the write of the return value went through after all: nothing to judge
+        w.stop();
+        return (fs, "nofault".into());
+    }
+    if p.fail != 0 || p.appends.contains(&4) || p.cas_fault || (may_fail && term.topic == "h.unregistered") {
         outcome.push_str("fail;");
         // nothing of the invocation appears; exactly one unregistered with the error
         if term.topic != "h.unregistered" {
@@ -295,7 +329,7 @@ pub fn run(tier: &str, report: &mut Report) {
     report.cov("distinct_outcomes", json!(outcomes.len()));
     report.cov("exhaustive", json!(true));
     report.cov("samples", json!(progs.iter().step_by((progs.len() / 4).max(1)).take(4).map(|p| script(p, "<ctxB>")).collect::<Vec<_>>()));
-    report.cov("explanation", json!("every handler script of the grammar {0..2 explicit .append with flags in {none, --meta colliding with the stamps, --ttl, --context other}, plus shapes with an append the store refuses at emission time (xs.context outside the zero context, NUL in the topic) in first / middle / last position} x {return nothing/string/int/float/bool/list/record/empty string/empty list/empty record/zero} x {return_options none/suffix/ttl head/ttl time/ephemeral+suffix} x {failure none/before/between/after the appends} (quick: every value of every dimension and all pairs with the append shape) is registered on a fresh store behind the real handlers::serve, triggered once and flushed by a sentinel frame; observed through a follower so ephemeral outputs count"));
+    report.cov("explanation", json!("every handler script of the grammar {0..2 explicit .append with flags in {none, --meta colliding with the stamps, --ttl, --context other}, plus shapes with an append the store refuses at emission time (xs.context outside the zero context, NUL in the topic) in first / middle / last position} x {return nothing/string/int/float/bool/list/record/empty string/empty list/empty record/zero} x {return_options none/suffix/ttl head/ttl time/ephemeral+suffix} x {failure none/before/between/after the appends; content store failing between the last explicit append and the return value} (quick: every value of every dimension and all pairs with the append shape) is registered on a fresh store behind the real handlers::serve, triggered once and flushed by a sentinel frame; observed through a follower so ephemeral outputs count"));
 }
 
 pub fn replay(v: &Value) -> i32 {
